@@ -61,7 +61,9 @@ def run_simple(ctx, cases, prop, chk_filter=None, signature=None, relation=None,
                 oi = first_bad
                 disagreements.append({"case": ci, "op_index": oi, "ops": list(c.ops[:oi + 1]), "impl": impl[ci][oi][:600],
                                       "model": model[ci][oi][:600], "label": c.label,
-                                      "explained_by_predicate_failure": bad_pred is not None})
+                                      # (explained = the property predicate fails on the implementation AT OR BEFORE the first
+                                      #  op on which the two sides differ; a failure later in the case explains nothing)
+                                      "explained_by_predicate_failure": bad_pred is not None and bad_pred[0] <= oi})
         if bad_pred is not None and c.judge:
             oi, v = bad_pred
             sig = signature(c, oi, v, agrees) if signature else "%s:%s:%s" % (prop, c.label, " ".join(v.split(" ")[:2]))
